@@ -670,19 +670,31 @@ def alternatives(fn: ast.AST, e: ast.AST, conds: List[Tuple[ast.AST, bool]], dep
     if depth <= 0:
         return [(e, list(conds))]
     params = {a.arg for a in ast.walk(fn.args) if isinstance(a, ast.arg)} if hasattr(fn, "args") else set()
+    inner_scope = set()
+    for c in ast.walk(e):
+        if isinstance(c, (ast.ListComp, ast.SetComp, ast.DictComp, ast.GeneratorExp, ast.Lambda)):
+            for x in ast.walk(c):
+                if x is not c:
+                    inner_scope.add(id(x))
+            # the first iterable of a comprehension is evaluated outside of it
+            if not isinstance(c, ast.Lambda):
+                for x in ast.walk(c.generators[0].iter):
+                    inner_scope.discard(id(x))
     for n in ast.walk(e):
-        if isinstance(n, ast.IfExp):
+        if isinstance(n, ast.IfExp) and id(n) not in inner_scope:
             out = []
             for val, pol in ((n.body, True), (n.orelse, False)):
                 e2 = _replace(e, n, val)
                 out += alternatives(fn, e2, list(conds) + [(n.test, pol)], depth - 1, at)
             return out
-        if isinstance(n, ast.Name) and isinstance(n.ctx, ast.Load) and n.id not in env and n.id not in params:
+        if isinstance(n, ast.Name) and isinstance(n.ctx, ast.Load) and n.id not in env and n.id not in params and id(n) not in inner_scope:
             defs = None
+            flow = False
             if at is not None:
                 rv = reaching_values(fn, n.id, at)
                 if rv is not None:
                     defs = [(v, cds, st) for v, cds, st in rv]
+                    flow = True
             if defs is None:
                 defs = []
                 for st in au.walk_no_nested(fn):
@@ -695,8 +707,8 @@ def alternatives(fn: ast.AST, e: ast.AST, conds: List[Tuple[ast.AST, bool]], dep
                 for v, cds, st in defs:
                     if _contradict(cds, conds):
                         continue
-                    if any(isinstance(x, ast.Name) and x.id == n.id for x in ast.walk(v)):
-                        continue  # re-binding in terms of itself (x = f(x)): not a plain alternative
+                    if not flow and any(isinstance(x, ast.Name) and x.id == n.id for x in ast.walk(v)):
+                        continue  # re-binding in terms of itself (x = f(x)): needs the flow-sensitive path
                     merged = list(conds) + [c for c in cds if (id(c[0]), c[1]) not in {(id(t), p) for t, p in conds}]
                     out += alternatives(fn, _replace(e, n, v), merged, depth - 1, st)
                 if out:
